@@ -27,7 +27,7 @@ func init() {
 	Register(&PropDef{
 		ID:    "C20",
 		Title: "No-Response suppression follows RFC 7967 for every value and code",
-		Rule: "run index i < 262144 enumerates (transport/type, option value 0..255 = every value the one-byte option can carry, response code 0..255) completely; the options that accompany No-Response (none, lower-numbered, unknown elective ones numbered above 258, both) rotate over the cells so that every (value, code) pair meets all four; each run sends the request (and, on datagram transports, a network duplicate of it) to a real connection whose handler calls SetResponse(code); " +
+		Rule: "run index i < 262144 enumerates (transport/type, option value 0..255 = every value the one-byte option can carry, response code 0..255) completely; the options that accompany No-Response (none, lower-numbered, unknown elective ones numbered above 258, both, a known option of illegal length that the decoder skips) rotate over the cells; each run sends the request (and, on datagram transports, a network duplicate of it) to a real connection whose handler calls SetResponse(code); " +
 			"non-trivial = the option suppresses at least one class (value has bit 2, 8 or 16); distinct = distinct (transport, value, code) log hash",
 		Scenarios: []Scenario{{Name: "S-NORESP", Weight: 1, Run: c20Run}},
 		Quick:     c20Table,
@@ -40,7 +40,7 @@ func init() {
 			// draws of c20Run: scenario(1 option) , mode, transport/type, value, code
 			return []uint32{0, uint32(idx / 65536), uint32((idx / 256) % 256), uint32(idx % 256)}, true
 		},
-		Require: []string{"company.0", "company.1", "company.2", "company.3"},
+		Require: []string{"company.0", "company.1", "company.2", "company.3", "company.4"},
 		Assume: []string{
 			"specification function written from RFC 7967: class = code>>5; suppressed iff (class 2 and value&2) or (class 4 and value&8) or (class 5 and value&16)",
 			"nothing here depends on the schedule; the property is claimed for the wire-level consequence, which only an endpoint in a (simulated) network shows",
@@ -60,7 +60,7 @@ func c20Run(e *Env) {
 	}
 	// which other options accompany No-Response: rotated over the table cells (every (value, code) pair meets all
 	// four companies across the four transports); runs beyond the table add a random offset
-	company := (kind + int(v) + int(code) + t.Choose(4)) % 4
+	company := (kind + int(v) + int(code)/4 + t.Choose(5)) % 5
 	class := code >> 5
 	suppressed := (class == 2 && v&2 != 0) || (class == 4 && v&8 != 0) || (class == 5 && v&16 != 0)
 	if v&(2|8|16) != 0 {
@@ -114,11 +114,15 @@ func c20Run(e *Env) {
 		}
 	}
 	req := &WMsg{Type: reqType, Code: 1, MID: 7777, Token: token, Opts: []WOpt{{Num: OptURIPath, Val: []byte("x")}}}
-	if company&1 != 0 {
+	if company == 4 {
+		// a known option with an illegal length before No-Response: the decoder skips it silently (RFC 7252 5.4.3)
+		// and everything after it keeps its number
+		req.Opts = append(req.Opts, WOpt{Num: OptURIQuery, Val: []byte("a=b")}, WOpt{Num: 14, Val: bytes.Repeat([]byte{1}, 5)}) // Max-Age of 5 bytes
+	} else if company&1 != 0 {
 		req.Opts = append(req.Opts, WOpt{Num: OptURIQuery, Val: []byte("a=b")}, WOpt{Num: 60, Val: []byte{7}}) // Uri-Query, Size1
 	}
 	req.Opts = append(req.Opts, UintOpt(OptNoResponse, v))
-	if company&2 != 0 {
+	if company != 4 && company&2 != 0 {
 		// elective options the library does not know, numbered above No-Response (vendor / experimental range)
 		req.Opts = append(req.Opts, WOpt{Num: 2050, Val: []byte{1, 2}}, WOpt{Num: 65000, Val: []byte("z")})
 	}
